@@ -23,7 +23,8 @@ from . import lib
 def run(ctx):
     q = ctx.quick
     if ctx.replay:
-        raise lib.ToolError("re-run the check: inputs are regenerated by TLC")
+        ctx.regenerate()
+        q = ctx.quick
     runs = []
     for part in ("face", "chord", "size", "imgin", "imgview"):
         runs.append(dict(module="serde/SerdeGen", cfg="SerdeGen.cfg", env={"OUT": ctx.path("gen", f"{part}.ndjson"), "PART": part}, workers=1, seed=ctx.seed, check=True))
